@@ -3,7 +3,10 @@ package container
 import (
 	"context"
 	"errors"
+	"syscall"
 
+	"github.com/criyle/go-sandbox/pkg/rlimit"
+	"github.com/criyle/go-sandbox/pkg/seccomp"
 	"github.com/criyle/go-sandbox/runner"
 	"github.com/criyle/go-sandbox/zzverif/kern"
 	"github.com/criyle/go-sandbox/zzverif/sym"
@@ -241,4 +244,81 @@ func VerifC10_InitDies() {
 	sym.WaitOthers()
 	err := c.Ping()
 	sym.Assert(err != nil, "a call on an environment whose init is dead must fail")
+}
+
+// VerifC10_StaleCommand: two runs on one environment whose requests differ in every optional
+// field (the first with all of them or none, the second with any subset; symbolic, including the zero values the wire encoding omits: no environment, no limits,
+// no filter, sync before instead of after exec, a shorter argument list).  "No command is ever
+// interpreted in the wrong state": each program is launched with exactly the arguments,
+// environment, limits, filter and sync mode of its own request - nothing of the previous command
+// carries over - and a request without arguments is refused whatever preceded it.
+func VerifC10_StaleCommand() {
+	w := newWorld()
+	w.onlyRun, w.recordLaunch = true, true
+	mk := func(tag string, bundled bool) ExecveParam {
+		p := ExecveParam{Args: []string{"/bin/" + tag}}
+		switch sym.Choose(tag+"_args", 3) {
+		case 0:
+			p.Args = nil
+		case 2:
+			p.Args = append(p.Args, "x")
+		}
+		// the first request sets all optional fields or none (one choice), the second each on its own
+		all := bundled && sym.Bool(tag+"_all_options")
+		opt := func(name string) bool {
+			if bundled {
+				return all
+			}
+			return sym.Bool(tag + name)
+		}
+		if opt("_env") {
+			p.Env = []string{"E=" + tag}
+		}
+		if opt("_rlimits") {
+			p.RLimits = []rlimit.RLimit{{Res: 7, Rlim: syscall.Rlimit{Cur: 9, Max: 9}}}
+		}
+		if opt("_filter") {
+			p.Seccomp = seccomp.Filter{{Code: 6, K: 0x7fff0000}}
+		}
+		p.CTTY = opt("_ctty")
+		if opt("_sync_after") {
+			p.SyncAfterExec = true
+			p.SyncFunc = func(int) error { return nil }
+		}
+		return p
+	}
+	for _, p := range []ExecveParam{mk("a", true), mk("b", false)} {
+		w.launches = nil
+		w.mayRunForever = false
+		w.prog = nil
+		res := w.host.Execve(kern.Background(), p)
+		if len(p.Args) == 0 {
+			sym.Reach("no-arguments")
+			sym.Assert(res.Status == runner.StatusRunnerError, "a request without arguments must be refused, whatever the previous command was")
+			sym.Assert(len(w.launches) == 0, "a program was launched for a request without arguments")
+			continue
+		}
+		sym.Assert(len(w.launches) == 1, "one request, one launch")
+		l := w.launches[0]
+		sym.Assert(len(l.args) == len(p.Args), "launched with an argument list that is not the request's")
+		for k := range p.Args {
+			sym.Assert(l.args[k] == p.Args[k], "launched with an argument that is not the request's")
+		}
+		// the environment is the container's default followed by the request's
+		nd := len(l.env) - len(p.Env)
+		sym.Assert(nd >= 0, "request environment missing at launch")
+		for k := range p.Env {
+			sym.Assert(l.env[nd+k] == p.Env[k], "launched with an environment that is not the request's")
+		}
+		for _, e := range l.env[:nd] {
+			sym.Assert(len(e) < 2 || e[:2] != "E=", "environment of an earlier request carried over")
+		}
+		sym.Assert(l.nRLimits == len(p.RLimits), "launched with limits that are not the request's")
+		sym.Assert(l.filter == (len(p.Seccomp) > 0), "filter installed iff the request carries one")
+		sym.Assert(l.ctty == p.CTTY, "controlling terminal requested iff the request asks for it")
+		sym.Assert(l.syncBeforeExec == !p.SyncAfterExec, "sync mode of another request")
+		sym.Assert(!l.execFile, "exec descriptor expected although the request has none")
+		sym.Assert(res.Status != runner.StatusRunnerError, "a well-formed run ended as Runner Error")
+	}
+	sym.Reach("both-runs")
 }
